@@ -367,3 +367,66 @@ def c07_builtin_errors(tier="quick", seed=0):
         out.append(ob(f"C07.bounded.builtin-errors.{wn}", bad is None, "B", f"{len(BUILTIN_ERRORS)} error sites" if bad is None else bad[1],
                       witness=(bad[0] if bad else None), confirmed=True if bad else None, domain=len(BUILTIN_ERRORS)))
     return out
+
+
+# =======================================================================================================================
+# K1: what nested code (eval, Function, accessors read by built-ins) left uncaught is thrown again UNCHANGED in the caller
+# =======================================================================================================================
+@effectful
+def spec_throw_recorded(vm, exc):
+    """callee contract of VM._throw used here (proved above): records what is thrown"""
+    ghost_set("throw.calls", ghost_get("throw.calls", 0) + 1)
+    ghost_set("throw.value", exc)
+    return None
+
+
+@effectful
+def spec_handle_python_exception(vm, error_type, message):
+    ghost_set("hpe.calls", ghost_get("hpe.calls", 0) + 1)
+    ghost_set("hpe.type", error_type)
+    ghost_set("hpe.message", message)
+    return None
+
+
+def c_rethrow_script_error(vm: Obj("VM"), err: Obj("JSError"), carries: Bool, v: JSVal, msg: Str):
+    """VM._rethrow_script_error: an error that carries the value nested code threw re-throws exactly that value -- whatever
+    it is: 0, '', null, undefined, false, NaN or an object by identity -- once; an error without a value (a refusal of the
+    compiler, a limit of the parser) becomes a script Error with its message, never the host object itself"""
+    if carries:
+        err.value = v
+    else:
+        assume(not hasattr(err, "value"))
+    err.message = msg
+    o = outcome(REAL, vm, err)
+    check("never-raises-itself", o[0] == "ret")
+    if carries:
+        check("thrown-once", ghost_get("throw.calls", 0) == 1 and ghost_get("hpe.calls", 0) == 0)
+        check("the-same-value", same_value(ghost_get("throw.value", None), v))
+    else:
+        check("becomes-a-script-Error", ghost_get("hpe.calls", 0) == 1 and ghost_get("throw.calls", 0) == 0)
+        check("with-its-message", ghost_get("hpe.type", None) == "Error" and ghost_get("hpe.message", None) == msg)
+
+
+def _native_rethrow():
+    from microjs.vm import VM
+    import pyvc.api as A
+    real = VM._rethrow_script_error
+
+    def run(vm, err):
+        o1, o2 = VM._throw, VM._handle_python_exception
+
+        def t(self, exc):
+            A.GHOST.update({"throw.calls": A.GHOST.get("throw.calls", 0) + 1, "throw.value": exc})
+
+        def h(self, error_type, message):
+            A.GHOST.update({"hpe.calls": A.GHOST.get("hpe.calls", 0) + 1, "hpe.type": error_type, "hpe.message": message})
+        VM._throw, VM._handle_python_exception = t, h
+        try:
+            return real(vm, err)
+        finally:
+            VM._throw, VM._handle_python_exception = o1, o2
+    return run
+
+
+register(c_rethrow_script_error, id="C07.VM._rethrow_script_error", prop="C07", target=method("microjs.vm", "VM._rethrow_script_error"), native=_native_rethrow,
+         summaries={"microjs.vm:VM._throw": spec_throw_recorded, "microjs.vm:VM._handle_python_exception": spec_handle_python_exception}, prim_args=False)
